@@ -68,8 +68,6 @@ class BehavioralRTLIRTypeCheckVisitorL2( BehavioralRTLIRTypeCheckVisitorL1 ):
     super().__init__(component, freevars, accessed, rtlir_getter)
     s.tmpvars = tmpvars
     s.tmpvars_is_explicit = {}
-    # temporaries that were given a signal itself ( x = s.w ), not a value
-    s.tmpvars_refer_to_signal = set()
     s.loopvar_nbits = {}
     s.loopvar_is_explicit = {}
     s.BinOp_max_nbits = (bir.Add, bir.Sub, bir.Mult, bir.Div, bir.Mod, bir.Pow,
@@ -125,19 +123,19 @@ class BehavioralRTLIRTypeCheckVisitorL2( BehavioralRTLIRTypeCheckVisitorL1 ):
     rhs_type = node.value.Type
     lhs_type = target.Type
 
+    # In Python x @= ... updates the object the local name x refers to in
+    # place: the signal it was given ( x = s.w ), or a value that other
+    # names share ( y = x ). A temporary variable is a copy.
+    base = target
+    while not isinstance( base, bir.TmpVar ) and hasattr( base, 'value' ):
+      base = base.value
+    if isinstance( base, bir.TmpVar ) and isinstance( node.ast, ast.AugAssign ):
+      raise PyMTLTypeError( s.blk, node.ast,
+        f'@= and <<= update the object that the local name {base.name} refers to in place, '
+        f'which a temporary variable cannot express: please use {base.name} = ... !' )
+
     if isinstance( target, bir.TmpVar ):
       tmpvar_id = (target.name, target.upblk_name)
-
-      # In Python a local name that was given a signal ( x = s.w ) IS that
-      # signal, and x @= ... writes s.w. A temporary variable is a copy.
-      if isinstance( node.value, bir.TmpVar ):
-        if (node.value.name, node.value.upblk_name) in s.tmpvars_refer_to_signal:
-          s.tmpvars_refer_to_signal.add( tmpvar_id )
-      elif isinstance( rhs_type, ( rt.Port, rt.Wire ) ):
-        s.tmpvars_refer_to_signal.add( tmpvar_id )
-      if isinstance( node.ast, ast.AugAssign ) and tmpvar_id in s.tmpvars_refer_to_signal:
-        raise PyMTLTypeError( s.blk, node.ast,
-          f'{target.name} is a local name of a signal: writing the signal through it cannot be translated!' )
 
       if lhs_type != rt.NoneType() and lhs_type.get_dtype() != rhs_type.get_dtype():
         raise PyMTLTypeError( s.blk, node.ast,
